@@ -542,9 +542,9 @@ static void script_vnaproperty_basic(Script &S) {
     PSET(0, "foo=replaced map by scalar");
     PSET(0, "names.now_a_map=1");
     for (int i = 0; i < 7; i++)   // grow one map and one list past their initial allocations
-        S.add("vnaproperty_set", false, [i](World &w) { RET_INT0(w, vnaproperty_set(&w.prop[0], "grow.k%d=v%d", i, i)); }, OBS_PROP(0));
+        S.add("vnaproperty_set", false, [i](World &w) { RET_INT0(w, vnaproperty_set(&w.prop[0], "grow.k%d=v%d", i, i)); }, i == 6 ? OBS_PROP(0) : nullptr);
     for (int i = 0; i < 7; i++)
-        S.add("vnaproperty_set", false, [i](World &w) { RET_INT0(w, vnaproperty_set(&w.prop[0], "glist[+]=%d", i)); }, OBS_PROP(0));
+        S.add("vnaproperty_set", false, [i](World &w) { RET_INT0(w, vnaproperty_set(&w.prop[0], "glist[+]=%d", i)); }, i == 6 ? OBS_PROP(0) : nullptr);
     // queries (they allocate too: the descriptor is formatted with vasprintf)
     S.add("vnaproperty_type", false, [](World &w) { int t = 0; errno = 0; long rc = vnaproperty_type(w.prop[0], "matrix[1]"); w.err = errno; w.rc = rc; w.rc_bad = !(rc == -1 || rc == 'l'); (void)t; return rc == -1; }, [](World &w) { w.obs("type=%ld", w.rc); });
     S.add("vnaproperty_count", false, [](World &w) { int n = 0; RET_INTN(w, vnaproperty_count(w.prop[0], "grow"), n); (void)n; }, [](World &w) { w.obs("count=%ld", w.rc); });
